@@ -72,10 +72,22 @@ theorem read_failure_is_io_npy (data sched : List Nat) (k : Nat) (hk : k ≤ dat
   · exact he
   · rw [show (Rd.fresh data sched (some k)).data = data from rfl, hvalid] at he; cases he
 
-/-- read_failure_surfaces (text). -/
+/-- read_failure_surfaces (text): if the underlying reader fails at any byte offset up to and including the end of the stream,
+    the text reader does not succeed. (The header line is parsed before the rest is read: a bad header line is reported as such
+    when the failure lies behind it.) -/
 theorem read_failure_surfaces_text (data sched : List Nat) (k : Nat) (hk : k ≤ data.length) :
+    ∃ e, readTextRd (Rd.fresh data sched (some k)) = .error e := by
+  rcases readTextRd_fail (Rd.fresh data sched (some k)) k ⟨rfl, Nat.zero_le _, hk⟩ with he | ⟨e, he, _⟩
+  · exact ⟨_, he⟩
+  · exact ⟨e, he⟩
+
+/-- … and when the data is a valid text spectrum, the error reported is the I/O error itself. -/
+theorem read_failure_is_io_text (data sched : List Nat) (k : Nat) (hk : k ≤ data.length) (s : List Nat × List Nat)
+    (hvalid : readText data = .ok s) :
     readTextRd (Rd.fresh data sched (some k)) = .error .io := by
-  exact readTextRd_fail (Rd.fresh data sched (some k)) k ⟨rfl, Nat.zero_le _, hk⟩
+  rcases readTextRd_fail (Rd.fresh data sched (some k)) k ⟨rfl, Nat.zero_le _, hk⟩ with he | ⟨e, _, he⟩
+  · exact he
+  · rw [show (Rd.fresh data sched (some k)).data = data from rfl, hvalid] at he; cases he
 
 /-- writeAll_schedule_free: through a writer that accepts only a few bytes per call, `write_all` delivers exactly the
     buffer. -/
